@@ -1555,7 +1555,7 @@ MIX = ("exposure", "obs_seq", "obs_dask", "threads", "writers", "exposure", "obs
 
 def plan(tier, seed):
     if tier == "quick":
-        specs = [{"shard": s, "seed": seed, "kind": "mixed", "n": 11, "tier": tier} for s in range(13)]
+        specs = [{"shard": s, "seed": seed, "kind": "mixed", "n": 14, "tier": tier} for s in range(13)]
         levels = [[2, 5], [3, 4], [6]]
         levels[seed % 3] = levels[seed % 3] + [2 + (seed * 7) % 15]
         specs += [{"shard": 13 + k, "seed": seed, "kind": "procs", "levels": lv, "n": len(lv)} for k, lv in enumerate(levels)]
